@@ -1,7 +1,7 @@
 #!/bin/sh
 # tools/lane_try.sh <lane> <patch file> <check id> [more ids...]
 # Like try_seed.sh, but fully outside /repo and /verif: lane <lane> is a scratch worktree of /repo's HEAD plus a
-# copy of the simulator (synced from /verif/sim at every call) with its own target directory under /tmp/lane/<lane>.
+# copy of the simulator (synced from /verif's HEAD commit at every call) with its own target directory under /tmp/lane/<lane>.
 # Several lanes can run at the same time; /verif/sim can be edited meanwhile. `lane_try.sh <lane> --remove` cleans up.
 LANE="$1"; P="$2"; shift 2
 L=/tmp/lane/$LANE
@@ -15,9 +15,11 @@ if [ ! -d $L/repo ]; then
 fi
 git -C $L/repo checkout -q -- .
 git -C $L/repo checkout -q --detach "$(git -C /repo rev-parse HEAD)"
-mkdir -p $L/sim
-rsync -a --delete /verif/sim/ $L/sim/ --exclude target
-rsync -a --delete /verif/vendor/ $L/vendor/
+# the simulator as committed (HEAD of /verif), so that edits in progress in /verif/sim never reach a lane half-done
+mkdir -p $L/sim $L/stage
+rm -rf $L/stage/*; git -C /verif archive HEAD sim vendor | tar -x -C $L/stage
+rsync -a --delete --checksum $L/stage/sim/ $L/sim/ --exclude target
+rsync -a --delete --checksum $L/stage/vendor/ $L/vendor/
 sed -i "s#/repo/#$L/repo/#g" $L/sim/Cargo.toml
 sed -i "s#/verif/.target#$L/target#" $L/sim/.cargo/config.toml
 grep -q "$L/target" $L/sim/.cargo/config.toml || { echo "target dir not redirected"; exit 2; }
